@@ -574,6 +574,7 @@ class QueryObjectDescriptor(CanBehaveLikeAVariable[T], ABC):
     selected_variables: List[CanBehaveLikeAVariable[T]] = field(default_factory=list)
     warned_vars: typing.Set = field(default_factory=set, init=False)
     rule_mode: bool = field(default=False, init=False)
+    _resetting_cache_: bool = field(default=False, init=False, repr=False)
 
     def __post_init__(self):
         super().__post_init__()
@@ -581,6 +582,18 @@ class QueryObjectDescriptor(CanBehaveLikeAVariable[T], ABC):
             self.rule_mode = True
         for variable in self.selected_variables:
             variable._var_._node_.enclosed = True
+
+    def _reset_cache_(self) -> None:
+        if self._resetting_cache_:
+            return
+        self._resetting_cache_ = True
+        try:
+            super()._reset_cache_()
+            # The selected expressions are evaluated as well but are not children of this node.
+            for variable in self.selected_variables:
+                variable._reset_cache_()
+        finally:
+            self._resetting_cache_ = False
 
     @lru_cache(maxsize=None)
     def _required_variables_from_child_(self, child: Optional[SymbolicExpression] = None, when_true: bool = True):
